@@ -765,7 +765,13 @@ func c04Body(rc *RunCtx) {
 	full := c04Decode(enc, dec)
 	rt04.on = false
 	d.Decodes++
-	if full.panicked || full.avail != 0 {
+	wantFull := rt04.want
+	if wantFull == nil {
+		wantFull = enc
+	}
+	// a decode that reports bytes left over although what it returned re-encodes to the whole
+	// input has read everything: its bookkeeping is off, the entry itself is fine
+	if full.panicked || (full.avail != 0 && !(rt04.got != nil && bytes.Equal(rt04.got, wantFull))) {
 		d.Notes = append(d.Notes, fmt.Sprintf("corpus entry not self-consistent: panicked=%v %s avail=%d", full.panicked, full.msg, full.avail))
 		simrt.Probe("corpus_invalid")
 		simrt.Probe("corpus_invalid:" + cs.Kind)
